@@ -794,6 +794,7 @@ THREADED_PUMP_REGRESSIONS = [
  {"cfg": {"src": "S3:ws-happy", "adapter": "ws"}, "steps": [{"a": "Start"}, {"a": "WaitConnected"}, {"a": "Publish", "qos": 0, "size": 10}, {"a": "Publish", "qos": 1, "size": 300}, {"a": "Inbound", "n": 1, "size": 40}, {"a": "Settle", "ms": 2000}]},
  {"cfg": {"src": "S3:f11a-ws-message-larger-than-read-buffer", "adapter": "ws"}, "steps": [{"a": "Start"}, {"a": "WaitConnected"}, {"a": "Inbound", "n": 1, "size": 6000}, {"a": "Settle", "ms": 2000}]},
  {"cfg": {"src": "S3:f11b-ws-several-messages-per-read", "adapter": "ws"}, "steps": [{"a": "Start"}, {"a": "WaitConnected"}, {"a": "Inbound", "n": 3, "size": 10, "per_message": 1}, {"a": "Settle", "ms": 2000}]},
+ {"cfg": {"src": "S3:f16-ws-blocked-write", "adapter": "ws", "ws_stall_ms": 1500}, "steps": [{"a": "Start"}, {"a": "WaitConnected"}, {"a": "Sleep", "ms": 50}] + [{"a": "Publish", "qos": 0, "size": 400000} for _ in range(30)] + [{"a": "Settle", "ms": 15000}]},
  {"cfg": {"src": "S3:ws-large-outbound", "adapter": "ws"}, "steps": [{"a": "Start"}, {"a": "WaitConnected"}, {"a": "Publish", "qos": 1, "size": 200000}, {"a": "Publish", "qos": 1, "size": 200000}, {"a": "Publish", "qos": 0, "size": 10}, {"a": "Settle", "ms": 4000}]},
 ]
 
